@@ -772,6 +772,7 @@ class Converter:
             # Edge case: no index specified. Eg. A[:, :]
             return self._emit1([target], "Identity", [var_name])
 
+        squeezed_axis_list: list[int] = []
         if sliced_indices or len(scalar_indices) > 1:
             # We emit a Slice operation if we have any indices like 1:5:2 or if the number of
             # scalar indices (like 2) is more than 1.
@@ -830,6 +831,7 @@ class Converter:
                     "Slice",
                     [var, start_value, end_value, axes_value, steps_value],
                 )
+                squeezed_axis_list = list(squeezed_axes)
                 squeezed_axes = self._emit_const(squeezed_axes, "squeezed_axes", info)
 
                 if non_scalar_indices:  # use temporary to store result of squeeze
@@ -848,6 +850,9 @@ class Converter:
         else:
             result = var
         non_scalar_indices.extend(scalar_indices)
+        # Indexing an axis with a scalar removes that axis: handle the highest axis first, so that
+        # the positions of the axes still to be indexed do not change.
+        non_scalar_indices.sort(key=lambda axis_and_expr: axis_and_expr[0], reverse=True)
         if non_scalar_indices:
             last_axis, _ = non_scalar_indices[-1]
         else:
@@ -855,7 +860,10 @@ class Converter:
             last_axis = None
         for axis, index_expr in non_scalar_indices:
             index_value = self._translate_expr(index_expr)
-            axis_attr = ir.AttrInt64("axis", axis)
+            # Axes squeezed above (scalar indices handled by Slice + Squeeze) are gone already.
+            axis_attr = ir.AttrInt64(
+                "axis", axis - sum(1 for squeezed in squeezed_axis_list if squeezed < axis)
+            )
             # use Gather to perform indexing
             # Assign gathered value to either temporary or final target
             if axis != last_axis:  # use temporary to store result of Gather
